@@ -38,8 +38,8 @@ RULE = ("2-d fields (1-3 components, also 4 and labelled scalars for the refusal
         "extent, arrow positions, U / V / mask / colour, contour X / Y / Z, labels; field VALUES are compared exactly in both "
         "regimes, coordinates exactly for multiplier 1 in the exact regime and to 2^-44 relative otherwise; lightness colours after "
         "applying atan2 / hls_to_rgb to the model's exact tokens (1e-9). Oracle on the real code alone: pixel <-> cell lookup through "
-        "the extent for every cell centre, arrows at centres/multiplier with the mapped components, hidden cells, labels, refusals, "
-        "field snapshot before/after. SI table mirrored in Lean and compared with ubermagutil (table, inverse, decade search). "
+        "the extent for every cell centre, arrows at centres/multiplier with the mapped components, hidden cells (invalid OR zero in the filter, with any filter), labels, refusals, "
+        "snapshot before/after of the field AND of every filter / colour / lightness field passed in. SI table mirrored in Lean and compared with ubermagutil (table, inverse, decade search). "
         "non-trivial = plot succeeded on a mesh with at least 2 cells and non-constant values")
 TRUSTED = ["harness/c20.py, harness/fieldio.py + driver JSON glue",
            "matplotlib placement contract (trusted, stated as PixelCovers / quiver contract): with origin='lower' and extent=(x0,x1,y0,y1) "
@@ -54,13 +54,10 @@ ASSUMPTIONS = ["exact regime: dyadic geometry (times 1, 1e3 or 1e6), values are 
                "lightness of 2-component fields with the default lightness uses Pythagorean vectors so that |v| is rational"]
 UNPROVED = ["plot_pure (plotting does not modify the field): the model is functional by construction; decided by the snapshot probe of the harness only",
             "rendering (pixels on screen, colour maps, hls_to_rgb, atan2) is matplotlib's / Python's and is trusted",
-            "scalar_at_position at full strength (invalid cells never drawn) is FALSE of the code when an explicit filter_field is passed: "
-            "the filter replaces the validity mask (candidate finding D21); proved: drawn iff the filter in force is non-zero",
-            "lightness_field that is the plotted field itself is rescaled in place (candidate finding D22); lightness plots of a mesh with a "
-            "single-cell axis raise IndexError (candidate finding D23)"]
+            "former defects D91 (explicit filter drew invalid cells), D92 (lightness_field rescaled in place), D93 (lightness on a single-cell axis raised) "
+            "are fixed in /repo; their witnesses are regression cases in harness/corpus/C20"]
 BUDGET = {"quick": 85, "thorough": 900}
 
-ASSUME_KNOWN = set(filter(None, os.environ.get("VERIF_C20_ASSUME_KNOWN", "").split(",")))  # self-test switch only
 
 LABELS = ["a", "b", "c", "mx", "my", "mz", "u1", "u2", "u3", "p", "q", "r"]
 DIMS = ["x", "y", "z", "a", "b", "c", "u", "v", "w", "t"]
@@ -322,7 +319,7 @@ def refusal_cases(rng):
 def cases(rng, tier):
     yield dict(kind="table", sub=rng.getrandbits(32))
     yield from refusal_cases(rng)
-    # (the three candidate findings D21-D23 have one deterministic witness each in harness/corpus/C20, run first)
+    # (the former defects D91-D93 have one deterministic regression witness each in harness/corpus/C20, run first)
     n = 1800 if tier == "quick" else 7000
     for _ in range(n):
         yield gen_case(rng, tier)
@@ -592,8 +589,7 @@ def oracle(case, f, flt, aux, res, used_mult, fail):
                         continue
                     px = None if (im["mask"][row, col] or math.isnan(im["data"][row, col])) else im["data"][row, col]
                     if hid and px is not None:
-                        tag = "[invalid-cell-drawn-with-explicit-filter] " if (not valid[i, j] and flt is not None) else ""
-                        fail(f"{tag}{kind} plot: cell ({i},{j}) is {'invalid' if not valid[i, j] else 'zero in the filter field'} but value {px!r} is drawn at its position")
+                        fail(f"{kind} plot: cell ({i},{j}) is {'invalid' if not valid[i, j] else 'zero in the filter field'} but value {px!r} is drawn at its position")
                         return
                     if not hid and (px is None or px != f.array[i, j, comp]):
                         fail(f"{kind} plot: the pixel covering the centre of cell ({i},{j}) shows {px!r}, the field value there is {f.array[i, j, comp]!r}")
@@ -664,8 +660,7 @@ def oracle(case, f, flt, aux, res, used_mult, fail):
                             continue
                         z = None if math.isnan(Z[j, i]) else Z[j, i]
                         if hid and z is not None:
-                            tag = "[invalid-cell-drawn-with-explicit-filter] " if (not valid[i, j] and flt is not None) else ""
-                            fail(f"{tag}contour plot: cell ({i},{j}) is {'invalid' if not valid[i, j] else 'zero in the filter field'} but Z there is {z!r}")
+                            fail(f"contour plot: cell ({i},{j}) is {'invalid' if not valid[i, j] else 'zero in the filter field'} but Z there is {z!r}")
                             return
                         if not hid and (z is None or z != f.array[i, j, 0]):
                             fail(f"contour plot: Z at the centre of cell ({i},{j}) is {z!r}, the field value is {f.array[i, j, 0]!r}")
@@ -689,8 +684,7 @@ def oracle(case, f, flt, aux, res, used_mult, fail):
                         continue
                     px = im["data"][row, col]
                     if hid and px[3] != 0:
-                        tag = "[invalid-cell-drawn-with-explicit-filter] " if (not valid[i, j] and flt is not None) else ""
-                        fail(f"{tag}lightness plot: cell ({i},{j}) is {'invalid' if not valid[i, j] else 'zero in the filter field'} but is drawn opaque")
+                        fail(f"lightness plot: cell ({i},{j}) is {'invalid' if not valid[i, j] else 'zero in the filter field'} but is drawn opaque")
                         return
                     if not hid:
                         if px[3] != 1:
@@ -831,7 +825,7 @@ def run_impl(case):
     if f.nvdim > 1:
         obs["tags"].append("mapping:" + ("none" if not f.vdim_mapping else "set"))
     snap = snapshot(f)
-    snaps_aux = [(nm, g, snapshot(g)) for nm, g in (("filter_field", flt), ("auxiliary field", aux)) if g is not None and g is not f]
+    snaps_aux = [(nm, g, snapshot(g)) for nm, g in (("filter_field", flt), ("colour / lightness field", aux)) if g is not None and g is not f]
     ax = new_rec_axes() if case.get("ax") == "rec" else None
     exc = None
     try:
@@ -863,11 +857,11 @@ def run_impl(case):
         # ---- purity
         k = same_snapshot(snap, snapshot(f))
         if k is not None:
-            tag = "[lightness-field-self-mutated] " if (aux is f and case["kind"] == "lightness") else ""
-            fail(f"{tag}plotting modified the field: {k} changed")
+            fail(f"plotting modified the field: {k} changed")
         for nm, g, s in snaps_aux:
-            if same_snapshot(s, snapshot(g)) is not None:
-                obs["tags"].append("observation:auxiliary-field-modified:" + case["kind"])
+            ka = same_snapshot(s, snapshot(g))
+            if ka is not None:
+                fail(f"plotting modified the {nm} passed in: {ka} changed")
         # ---- refusals / successes the property pins
         expect = expectation(case, f, flt, aux)
         obs["expect"] = expect
@@ -875,8 +869,7 @@ def run_impl(case):
         if expect == "err" and obs["status"] == "ok":
             fail(f"{case['kind']} plot of a field with nvdim={f.nvdim}, mapping {dict(f.vdim_mapping)} was not refused")
         if expect == "ok" and obs["status"] == "err" and not obs.get("mpl_refused"):
-            tag = "[lightness-single-cell-axis] " if (case["kind"] == "lightness" and 1 in [int(k) for k in f.mesh.n]) else ""
-            fail(f"{tag}{case['kind']} plot of a valid 2-d field (n={[int(k) for k in f.mesh.n]}, nvdim={f.nvdim}) raised {type(exc).__name__}: {str(exc)[:120]}")
+            fail(f"{case['kind']} plot of a valid 2-d field (n={[int(k) for k in f.mesh.n]}, nvdim={f.nvdim}) raised {type(exc).__name__}: {str(exc)[:120]}")
         # ---- positional oracle
         if obs["status"] == "ok" and res is not None:
             um = None
@@ -897,8 +890,6 @@ def run_impl(case):
         plt.close("all")
     nn = [int(k) for k in f.mesh.n]
     obs["nontrivial"] = obs["status"] == "ok" and nn[0] * nn[1] >= 2 and float(np.ptp(f.array)) > 0
-    if ASSUME_KNOWN:
-        obs["oracle"] = [t for t in obs["oracle"] if classify(t) not in ASSUME_KNOWN]
     return obs
 
 
@@ -1165,25 +1156,8 @@ def nontrivial(case, obs):
     return bool(obs.get("nontrivial")) or case["kind"] == "table"
 
 
-def classify(text):
-    if "[invalid-cell-drawn-with-explicit-filter]" in text:
-        return "D21"
-    if "[lightness-field-self-mutated]" in text:
-        return "D22"
-    if "[lightness-single-cell-axis]" in text:
-        return "D23"
-    return None
-
-
 def known(case, text):
-    k = classify(text)
-    if k == "D21" and case.get("filter") and case["kind"] in ("scalar", "contour", "lightness", "default"):
-        return "D21"
-    if k == "D22" and case.get("aux") == "self" and case["kind"] == "lightness":
-        return "D22"
-    if k == "D23" and case["kind"] == "lightness" and 1 in case["mesh"]["n"]:
-        return "D23"
-    return None
+    return None  # no open finding for C20 (D91-D93 are fixed in /repo)
 
 
 def search(case, rng):
